@@ -2613,7 +2613,7 @@ package decimal128
 // MarshalJSON (C13, thin): NaN and infinities are refused with *json.UnsupportedValueError, finite
 // values never fail. The bytes produced by fmtE / fmtF are outside the contracts.
 //@ func Decimal.MarshalJSON
-//@ uses rssteps=1,2,3,4,5,6,7,8,9,10,11,12,13,14,15,16,17,18,19,20,21,22,23,24,25,26,27,28,29,30,31,32,33,34,35,36,37,38,39 rsmono=0,1,2,3,4,5,6,7,8,9,10,11,12,13,14,15,16,17,18,19,20,21,22,23,24,25,26,27,28,29,30,31,32,33,34,35,36,37,38,39 timeout=30
+//@ uses rssteps=1,2,3,4,5,6,7,8,9,10,11,12,13,14,15,16,17,18,19,20,21,22,23,24,25,26,27,28,29,30,31,32,33,34,35,36,37,38,39 rsmono=0,1,2,3,4,5,6,7,8,9,10,11,12,13,14,15,16,17,18,19,20,21,22,23,24,25,26,27,28,29,30,31,32,33,34,35,36,37,38,39 timeout=90
 //@ returns (out, err)
 //@ logical V real
 //@ requires !special(d) ==> V >= 0 && rs(V, bexp(d)) == coef(d)
@@ -2640,7 +2640,7 @@ package decimal128
 // outside this contract.
 //@ func Decimal.String
 //@ returns (s)
-//@ uses rssteps=1,2,3,4,5,6,7,8,9,10,11,12,13,14,15,16,17,18,19,20,21,22,23,24,25,26,27,28,29,30,31,32,33,34,35,36,37,38,39 rsmono=0,1,2,3,4,5,6,7,8,9,10,11,12,13,14,15,16,17,18,19,20,21,22,23,24,25,26,27,28,29,30,31,32,33,34,35,36,37,38,39 timeout=30
+//@ uses rssteps=1,2,3,4,5,6,7,8,9,10,11,12,13,14,15,16,17,18,19,20,21,22,23,24,25,26,27,28,29,30,31,32,33,34,35,36,37,38,39 rsmono=0,1,2,3,4,5,6,7,8,9,10,11,12,13,14,15,16,17,18,19,20,21,22,23,24,25,26,27,28,29,30,31,32,33,34,35,36,37,38,39 timeout=90
 //@ logical V real
 //@ requires !special(d) ==> V >= 0 && rs(V, bexp(d)) == coef(d)
 //@ call Decimal.digits#1: V = V
@@ -2665,7 +2665,7 @@ package decimal128
 //@ props C06 C20
 
 //@ func Decimal.MarshalText
-//@ uses rssteps=1,2,3,4,5,6,7,8,9,10,11,12,13,14,15,16,17,18,19,20,21,22,23,24,25,26,27,28,29,30,31,32,33,34,35,36,37,38,39 rsmono=0,1,2,3,4,5,6,7,8,9,10,11,12,13,14,15,16,17,18,19,20,21,22,23,24,25,26,27,28,29,30,31,32,33,34,35,36,37,38,39 timeout=30
+//@ uses rssteps=1,2,3,4,5,6,7,8,9,10,11,12,13,14,15,16,17,18,19,20,21,22,23,24,25,26,27,28,29,30,31,32,33,34,35,36,37,38,39 rsmono=0,1,2,3,4,5,6,7,8,9,10,11,12,13,14,15,16,17,18,19,20,21,22,23,24,25,26,27,28,29,30,31,32,33,34,35,36,37,38,39 timeout=90
 //@ returns (out, err)
 //@ logical V real
 //@ requires !special(d) ==> V >= 0 && rs(V, bexp(d)) == coef(d)
@@ -2716,7 +2716,7 @@ package decimal128
 //@ props C07 C20
 
 //@ func Decimal.format
-//@ uses rssteps=1,2,3,4,5,6,7,8,9,10,11,12,13,14,15,16,17,18,19,20,21,22,23,24,25,26,27,28,29,30,31,32,33,34,35,36,37,38,39 rsmono=0,1,2,3,4,5,6,7,8,9,10,11,12,13,14,15,16,17,18,19,20,21,22,23,24,25,26,27,28,29,30,31,32,33,34,35,36,37,38,39 timeout=30
+//@ uses rssteps=1,2,3,4,5,6,7,8,9,10,11,12,13,14,15,16,17,18,19,20,21,22,23,24,25,26,27,28,29,30,31,32,33,34,35,36,37,38,39 rsmono=0,1,2,3,4,5,6,7,8,9,10,11,12,13,14,15,16,17,18,19,20,21,22,23,24,25,26,27,28,29,30,31,32,33,34,35,36,37,38,39 timeout=90
 //@ returns (out)
 //@ logical V real
 //@ requires !special(d) ==> V >= 0 && rs(V, bexp(d)) == coef(d)
@@ -2749,7 +2749,7 @@ package decimal128
 // Append (C06, C07): layout selection of the package-level Append / Format: for 'g'/'G' the same
 // switch-over rule as Decimal.format (precision -1 counts as 6).
 //@ func Append
-//@ uses rssteps=1,2,3,4,5,6,7,8,9,10,11,12,13,14,15,16,17,18,19,20,21,22,23,24,25,26,27,28,29,30,31,32,33,34,35,36,37,38,39 rsmono=0,1,2,3,4,5,6,7,8,9,10,11,12,13,14,15,16,17,18,19,20,21,22,23,24,25,26,27,28,29,30,31,32,33,34,35,36,37,38,39 timeout=30
+//@ uses rssteps=1,2,3,4,5,6,7,8,9,10,11,12,13,14,15,16,17,18,19,20,21,22,23,24,25,26,27,28,29,30,31,32,33,34,35,36,37,38,39 rsmono=0,1,2,3,4,5,6,7,8,9,10,11,12,13,14,15,16,17,18,19,20,21,22,23,24,25,26,27,28,29,30,31,32,33,34,35,36,37,38,39 timeout=90
 //@ returns (out)
 //@ logical V real
 //@ requires !special(d) ==> V >= 0 && rs(V, bexp(d)) == coef(d)
